@@ -58,7 +58,7 @@ impl Engine for C08 {
     }
     fn bound(&self, tier: Tier) -> String {
         match tier {
-            Tier::Quick => "owners {1, d/3}; placements x 4 kinds x internal url forms; others in {titled, back}; 4 new names".into(),
+            Tier::Quick => "owners {1, 2, d/3}; placements x 4 kinds x internal url forms; others in {titled, untitled, back, linked-title}; titles {plain, none, link}; 4 new names".into(),
             Tier::Thorough => "owners {1, 2, d/3}; placements x 4 kinds x internal url forms; others in {titled, untitled, back, linked-title}; titles {plain, none, link}; 4 new names".into(),
         }
     }
@@ -69,7 +69,9 @@ impl Engine for C08 {
         ]
     }
     fn enumerate(&self, tier: Tier, emit: &mut dyn FnMut(&str)) {
-        let deep = tier == Tier::Thorough;
+        // the deep space takes a few seconds: both tiers run it
+        let _ = tier;
+        let deep = true;
         let owners: Vec<&str> = if deep { vec!["1", "2", "d/3"] } else { vec!["1", "d/3"] };
         let others: Vec<&str> = if deep { vec!["titled", "untitled", "back", "linked-title"] } else { vec!["titled", "back"] };
         let titles: Vec<&str> = if deep { vec!["plain", "none", "link"] } else { vec!["plain"] };
